@@ -335,4 +335,11 @@ example : flipComplete true (fixFlip (flipInit [str "CG", str "OD1"] [str "OD1"]
   decide
 example : watComplete ([str "O"].foldl (fun s _ => s) [str "O"]) false = [str "O", str "H1", str "H2"] := by decide
 
+/-- the hypothesis `H2 ∉ s` of `water_clean` is necessary: the water code takes "has H2" for "is
+complete", so a water that comes with H2 but without H1 never gets H1 (the excluded point was run on
+the real code: the water stays O, H2 and the run then fails loudly at the total-charge guard — no
+output is written, so no listed property is broken; recorded in DESIGN, not repaired) -/
+example : watComplete [str "O", str "H2"] false = [str "O", str "H2"] ∧
+    watComplete [str "O", str "H1"] false = [str "O", str "H1", str "H2"] := by decide
+
 end P2P.Props.C03
